@@ -126,7 +126,7 @@ class Optimizer:
             and isinstance(whitespace.expression, Choice)
         ):
             expr = squash(whitespace.expression.expressions, OptimizedChoiceRepeat())
-            if expr:
+            if expr and expr.is_order_preserving():
                 rules["SKIP"] = Rule("SKIP", expr, SILENT_ATOMIC)
 
     def _run_once(
